@@ -15,6 +15,7 @@ import (
 
 // SpecEnv is the context in which a contract expression is evaluated.
 type SpecEnv struct {
+	paramsFirst bool // post-conditions: parameter names mean the entry values even when the body reassigns them
 	params  map[string]Val // parameters of the function under contract (entry values); a loop-carried variable of the same name shadows them
 	vars    map[string]Val
 	st      *State
@@ -156,6 +157,11 @@ func (e *Enc) specIdent(name string, env *SpecEnv) Val {
 			return e.evalSpec(ex, &n)
 		}
 	}
+	if env.paramsFirst {
+		if v, ok := env.params[name]; ok {
+			return v
+		}
+	}
 	if env.f != nil && env.blk != nil {
 		if v, ok := e.resolveLocal(env.f, env.blk, name, env.atHead, env.st); ok {
 			return v
@@ -197,6 +203,9 @@ func (e *Enc) specIdent(name string, env *SpecEnv) Val {
 	}
 	// well-known external constants
 	switch name {
+	case "ZeroTimeNano":
+		// instant of the zero time.Time in nanoseconds since the Unix epoch
+		return intVal("(- 62135596800000000000)")
 	case "MaxInt64":
 		return intVal("9223372036854775807")
 	case "MinInt64":
@@ -509,6 +518,48 @@ func (e *Enc) specCall(n *ast.CallExpr, env *SpecEnv) Val {
 		}
 		ne.old, ne.oldVars = nil, nil
 		return e.evalSpec(n.Args[0], &ne)
+	case "local":
+		// local(x): the function's local variable x at this point, even when a parameter has the same name
+		id, ok := n.Args[0].(*ast.Ident)
+		if !ok || env.f == nil || env.blk == nil {
+			specFail("local(x): x must be a local variable name and the clause must be evaluated inside a function body")
+		}
+		if v, ok := e.resolveLocal(env.f, env.blk, id.Name, env.atHead, env.st); ok {
+			return v
+		}
+		specFail("local(%s): no such local", id.Name)
+	case "outer":
+		// outer(N, expr): expr with loop-carried variables (and memory) as they were at the head of loop N in its current iteration
+		if env.f == nil {
+			specFail("outer() outside a function body")
+		}
+		lit, ok := n.Args[0].(*ast.BasicLit)
+		if !ok {
+			specFail("outer(N, expr): N must be a literal")
+		}
+		var ord int
+		fmt.Sscanf(lit.Value, "%d", &ord)
+		for hb, li := range env.f.loops {
+			if li.ordinal == ord {
+				hv, ok1 := env.f.headVal[hb]
+				hs, ok2 := env.f.headSt[hb]
+				if !ok1 || !ok2 {
+					specFail("outer(%d, ...): loop head not executed yet", ord)
+				}
+				ne := *env
+				ne.st = hs
+				ne.vars = map[string]Val{}
+				for k, v := range env.vars {
+					ne.vars[k] = v
+				}
+				for k, v := range hv {
+					ne.vars[k] = v
+				}
+				ne.old, ne.oldVars = nil, nil
+				return e.evalSpec(n.Args[1], &ne)
+			}
+		}
+		specFail("outer(%d, ...): no such loop", ord)
 	case "entry":
 		// value in the state at function entry (old() inside step clauses means the loop head)
 		ne := *env
@@ -580,7 +631,23 @@ func (e *Enc) specCall(n *ast.CallExpr, env *SpecEnv) Val {
 			if e.registerQuantFact(n, id, env) && !keepQuantifiers {
 				return boolVal("true") // used only through its explicit instances
 			}
+			if !keepQuantifiers && e.instDepth > 0 && len(e.curGoalSkolems) > 0 && len(e.curGoalSkolems) <= 6 && e.nestInst == 0 {
+				// nested universal hypothesis met while instantiating the outer one for a goal:
+				// its instances at the Skolem constants of that goal
+				e.nestInst++
+				var cs []string
+				for _, t := range e.curGoalSkolems {
+					rng := fmt.Sprintf("(and (<= %s %s) (< %s %s))", lo.T, t, t, hi.T)
+					saveR := e.curReach
+					e.curReach = and(saveR, rng)
+					cs = append(cs, implies(rng, e.evalBool(n.Args[3], env.with(id, intVal(t)))))
+					e.curReach = saveR
+				}
+				e.nestInst--
+				return boolVal(and(cs...))
+			}
 			if !keepQuantifiers && (e.instDepth > 0 || e.invDepth > 1) {
+				e.droppedNested++
 				return boolVal("true") // nested hypothesis met while instantiating: not used (incompleteness only)
 			}
 		}
@@ -685,6 +752,25 @@ func (e *Enc) specCall(n *ast.CallExpr, env *SpecEnv) Val {
 		e.noObl++
 		defer func() { e.noObl-- }()
 		return e.inlinePure(fn, args, env.st)
+	case "libcall":
+		// libcall("pkg.Func", args...): the uninterpreted function that models a pure library function
+		lit := n.Args[0].(*ast.BasicLit)
+		name, _ := strconv.Unquote(lit.Value)
+		fn := e.w.libFunc(name)
+		if fn == nil {
+			specFail("libcall: unknown library function %s", name)
+		}
+		var args []Val
+		for i := 1; i < len(n.Args); i++ {
+			args = append(args, arg(i))
+		}
+		var rs *Shape
+		if fn.Signature.Results().Len() == 1 {
+			rs = shapeOf(fn.Signature.Results().At(0).Type())
+		} else {
+			rs = shapeOf(fn.Signature.Results())
+		}
+		return e.pureLib(name, args, rs)
 	case "mkobj":
 		// mkobj(T, field, value, ...): a ghost object of struct type T (not reachable from program state)
 		t := e.w.resolveType(n.Args[0])
@@ -714,6 +800,17 @@ func (e *Enc) specCall(n *ast.CallExpr, env *SpecEnv) Val {
 			return v
 		}
 		return Val{Sh: shapeOf(types.NewInterfaceType(nil, nil)), Sub: []Val{intVal(fmt.Sprintf("%d", e.w.typeTag(v.Sh.T))), intVal(e.box(v))}}
+	case "haskey":
+		// haskey(m, k): the map holds an entry for k
+		m, k := arg(0), arg(1)
+		mt, ok := m.Sh.T.Underlying().(*types.Map)
+		if !ok {
+			specFail("haskey of %s", m.Sh.T)
+		}
+		ks := keySort(mt)
+		has := e.mapHeap(env.st, mapPath(mt)+"#has", "(Array Int (Array "+ks+" Bool))")
+		e.frameLemmas(has, m.T, map[*Heap]bool{})
+		return boolVal(fmt.Sprintf("(select (select %s %s) %s)", has.Term, m.T, k.T))
 	case "mapvalsnonnil":
 		// every value stored in the (interface-valued) map is a non-nil interface
 		m := arg(0)
@@ -1000,6 +1097,30 @@ func (e *Enc) registerQuantFact(n *ast.CallExpr, id string, env *SpecEnv) bool {
 	if env.old != nil {
 		cenv.old = env.old.clone()
 	}
+	// capture the current values of the variables the hypothesis mentions (loop-carried
+	// variables are rebound while back edges are checked)
+	cenv.vars = map[string]Val{}
+	for k, v := range env.vars {
+		cenv.vars[k] = v
+	}
+	for _, a := range n.Args[1:] {
+		ast.Inspect(a, func(x ast.Node) bool {
+			if idn, ok := x.(*ast.Ident); ok && idn.Name != id {
+				if _, have := cenv.vars[idn.Name]; !have {
+					func() {
+						mode := e.saveMode()
+						defer func() {
+							if r := recover(); r != nil {
+								e.restoreMode(mode)
+							}
+						}()
+						cenv.vars[idn.Name] = e.specIdent(idn.Name, env)
+					}()
+				}
+			}
+			return true
+		})
+	}
 	ne := e.nextEntry
 	e.ctr["qf"]++
 	qf := &quantFact{id: e.ctr["qf"], reach: e.curReach}
@@ -1007,10 +1128,11 @@ func (e *Enc) registerQuantFact(n *ast.CallExpr, id string, env *SpecEnv) bool {
 		saveNE, savePol := e.nextEntry, e.pol
 		e.nextEntry, e.pol = ne, -1
 		defer func() { e.nextEntry, e.pol = saveNE, savePol }()
+		saveR := e.curReach
+		e.curReach = qf.reach // everything assumed while evaluating the hypothesis holds only where the hypothesis does
 		lo := e.evalSpec(n.Args[1], &cenv)
 		hi := e.evalSpec(n.Args[2], &cenv)
 		rng := fmt.Sprintf("(and (<= %s %s) (< %s %s))", lo.T, t, t, hi.T)
-		saveR := e.curReach
 		e.curReach = and(qf.reach, rng)
 		body := e.evalBool(n.Args[3], cenv.with(id, intVal(t)))
 		e.curReach = saveR
@@ -1018,7 +1140,12 @@ func (e *Enc) registerQuantFact(n *ast.CallExpr, id string, env *SpecEnv) bool {
 	}
 	// dry run: which element heaps does the body read at the bound index?
 	func() {
-		defer func() { recover() }()
+		mode := e.saveMode()
+		defer func() {
+			if r := recover(); r != nil {
+				e.restoreMode(mode)
+			}
+		}()
 		e.inQuant++
 		e.quantPats = append(e.quantPats, quantPat{bv: "dry!q"})
 		e.evalBool(n.Args[3], cenv.with(id, intVal("dry!q")))
@@ -1088,8 +1215,10 @@ func (e *Enc) instOne(qf *quantFact, t string) {
 	}
 	e.lemmaDone[key] = true
 	e.ctr["qfinst"]++
+	mode := e.saveMode()
 	defer func() {
 		if r := recover(); r != nil {
+			e.restoreMode(mode)
 			if _, ok := r.(specErr); ok {
 				return // the hypothesis mentions names that do not resolve here: skip this instance
 			}
@@ -1097,7 +1226,11 @@ func (e *Enc) instOne(qf *quantFact, t string) {
 		}
 	}()
 	saveR := e.curReach
+	d0 := e.droppedNested
 	inst := qf.inst(t)
+	if e.droppedNested > d0 {
+		delete(e.lemmaDone, key) // a nested hypothesis was left out: instantiate again when a goal provides its Skolem constants
+	}
 	e.curReach = qf.reach
 	e.assume(inst)
 	e.curReach = saveR
